@@ -81,9 +81,16 @@ def encodeRec (r : Rec) : Bytes := fixedPart r ++ varPart r
 def encodeAll (recs : List Rec) : Bytes := recs.flatMap encodeRec
 
 /-- `magic, l_text, text, n_ref, (l_name, name\0, l_ref)*` -/
+def encodeRefs (refs : List (Bytes × Nat)) : Bytes :=
+  refs.flatMap (fun p => toLE 4 (p.1.length + 1) ++ (p.1 ++ (0 :: toLE 4 p.2)))
+
 def encodeHeader (text : Bytes) (refs : List (Bytes × Nat)) : Bytes :=
-  [66, 65, 77, 1] ++ toLE 4 text.length ++ text ++ toLE 4 refs.length ++
-  refs.flatMap (fun p => toLE 4 (p.1.length + 1) ++ p.1 ++ [0] ++ toLE 4 p.2)
+  [66, 65, 77, 1] ++ (toLE 4 text.length ++ (text ++ (toLE 4 refs.length ++ encodeRefs refs)))
+
+/-- a header the format allows: lengths fit 32 bits, reference names contain no NUL -/
+def validHeader (text : Bytes) (refs : List (Bytes × Nat)) : Bool :=
+  decide (text.length < 4294967296) && decide (refs.length < 4294967296) &&
+  refs.all (fun p => p.1.all (fun b => b != 0) && decide (p.2 < 4294967296))
 
 /-- a record the BAM specification allows (`nref` references in the header) -/
 def valid (nref : Nat) (r : Rec) : Bool :=
@@ -222,25 +229,26 @@ structure RState where
   rest : Bytes
   prepend : Bytes
 
-/-- one `NumpyFileReader.read_chunk(min_chunk_size = k)`; `none` = returned `None` -/
-def readChunk (oldCig oldChrom : Bool) (names : List Bytes) (k : Nat) (st : RState) : Option (List DRec × RState) :=
+/-- one `NumpyFileReader.read_chunk(min_chunk_size = k)`; `none` = returned `None`. Delivers the decoded
+records and the chunk's own bytes (`buffer.data`, what the chunk writes back) -/
+def readChunk (oldCig oldChrom : Bool) (names : List Bytes) (k : Nat) (st : RState) : Option ((List DRec × Bytes) × RState) :=
   let got := st.rest.take k
   let finished := decide (got.length < k)
   if got.length = 0 then none else
   let a := if finished then addNewline got else got
   let chunk := st.prepend ++ a
   let r := decodeChunk oldCig oldChrom names chunk
-  some (r.1, { rest := st.rest.drop k, prepend := if finished then [] else chunk.drop r.2 })
+  some ((r.1, chunk.take r.2), { rest := st.rest.drop k, prepend := if finished then [] else chunk.drop r.2 })
 
 /-- `NpDataclassReader.read_chunks`: `takewhile(len, (read_chunk() for _ in repeat(None)))` -/
-def readChunks (oldCig oldChrom : Bool) (names : List Bytes) (k : Nat) : Nat → RState → List (List DRec)
+def readChunks (oldCig oldChrom : Bool) (names : List Bytes) (k : Nat) : Nat → RState → List (List DRec × Bytes)
   | 0, _ => []
   | fuel + 1, st =>
     match readChunk oldCig oldChrom names k st with
     | none => []
-    | some (recs, st') => if recs.isEmpty then [] else recs :: readChunks oldCig oldChrom names k fuel st'
+    | some (c, st') => if c.1.isEmpty then [] else c :: readChunks oldCig oldChrom names k fuel st'
 
-def readAllChunks (oldCig oldChrom : Bool) (names : List Bytes) (k : Nat) (body : Bytes) : List (List DRec) :=
+def readAllChunks (oldCig oldChrom : Bool) (names : List Bytes) (k : Nat) (body : Bytes) : List (List DRec × Bytes) :=
   readChunks oldCig oldChrom names k (body.length + 1) { rest := body, prepend := [] }
 
 /-! reference interval (`count_reference_length`, `alignment_to_interval`, `BamIntervalBuffer`) -/
@@ -262,6 +270,89 @@ def selectBytes (chunk : Bytes) (idx : List Nat) : Bytes :=
   idx.flatMap (fun i => match starts[i]?, starts[i + 1]? with
     | some a, some b => slice chunk a (b - a)
     | _, _ => [])
+
+/-! ### header (`BamHeader.read_header`) and whole files -/
+
+/-- `_read_zero_term`: the bytes before the first NUL and what follows it (`none`: no NUL, the code would not return) -/
+def readZeroTerm : Bytes → Option (Bytes × Bytes)
+  | [] => none
+  | b :: r => if b = 0 then some ([], r) else (readZeroTerm r).map (fun p => (b :: p.1, p.2))
+
+/-- `_handle_refs`: per reference `l_name` (read and ignored), the NUL-terminated name, `l_ref` -/
+def parseRefs : Nat → Bytes → Option (List (Bytes × Nat) × Bytes)
+  | 0, d => some ([], d)
+  | n + 1, d =>
+    match readZeroTerm (d.drop 4) with
+    | none => none
+    | some (name, r) => (parseRefs n (r.drop 4)).map (fun p => ((name, fromLE (r.take 4)) :: p.1, p.2))
+
+/-- `read_header`: `assert magic`, `l_text`, skip the text, `n_ref`, references; returns the references and the
+record area that follows -/
+def parseHeader (d : Bytes) : Option (List (Bytes × Nat) × Bytes) :=
+  if d.take 4 = [66, 65, 77, 1] then
+    let lText := fromLE (slice d 4 4)
+    let d1 := d.drop (8 + lText)
+    parseRefs (fromLE (d1.take 4)) (d1.drop 4)
+  else none
+
+/-- `BamHeader.bytes()`: everything `read` consumed, replayed verbatim by `make_header` on write -/
+def headerBytes (d : Bytes) : Bytes :=
+  match parseHeader d with
+  | some (_, body) => d.take (d.length - body.length)
+  | none => []
+
+/-- gzip/BGZF: a file is a list of members, reading yields the concatenation of their payloads (ASSUMED) -/
+def gunzip (members : List Bytes) : Bytes := members.flatten
+
+/-- `bnp.open(f).read()` on a BAM file given as BGZF members -/
+def readFile (oldCig oldChrom : Bool) (members : List Bytes) : Option (List (Bytes × Nat) × List DRec) :=
+  match parseHeader (gunzip members) with
+  | none => none
+  | some (refs, body) => some (refs, readWhole oldCig oldChrom (refs.map Prod.fst) body)
+
+/-- `bnp.open(g, "w").write(data[idx])` + `NumpyBamWriter.__exit__`: one gzip member holding the replayed header
+and the selected records, then the BGZF end-of-file block (a member with empty payload) -/
+def writeFile (members : List Bytes) (idx : List Nat) : List Bytes :=
+  let d := gunzip members
+  match parseHeader d with
+  | none => []
+  | some (_, body) => [headerBytes d ++ selectBytes (addNewline body) idx, []]
+
+/-- `bnp.open(g, "w").write(bnp.open(f).read_chunks(k))`: header once, then every chunk's own bytes -/
+def writeChunks (oldCig oldChrom : Bool) (members : List Bytes) (k : Nat) : List Bytes :=
+  let d := gunzip members
+  match parseHeader d with
+  | none => []
+  | some (refs, body) =>
+    [headerBytes d ++ ((readAllChunks oldCig oldChrom (refs.map Prod.fst) k body).map (·.2)).flatten, []]
+
+/-- the 28-byte BGZF end-of-file block of SAMv1 §4.1.2 -/
+def specEof : Bytes :=
+  [31, 139, 8, 4, 0, 0, 0, 0, 0, 255, 6, 0, 66, 67, 2, 0, 27, 0, 3, 0, 0, 0, 0, 0, 0, 0, 0, 0]
+
+/-! ### `alignment_to_interval` / `BamIntervalBuffer` on columns (ragged CIGAR arrays) -/
+
+/-- rows of a ragged array given as flat data + row lengths -/
+def raggedRows : List Nat → List Nat → List (List Nat)
+  | _, [] => []
+  | d, n :: ns => d.take n :: raggedRows (d.drop n) ns
+
+/-- `count_reference_length(symbol, lengths)`: `mask = OR_i (symbol == consuming[i])`, `np.sum(mask * lengths, axis=-1)`;
+`codes` = the op codes of `as_encoded_array("MDN=X", CigarOpEncoding)` (extracted from the running code) -/
+def countReferenceLength (codes : List Nat) (flatOps flatLens rowLens : List Nat) : List Nat :=
+  let mask := flatOps.map (fun op => if codes.any (· == op) then 1 else 0)
+  let prod := (mask.zip flatLens).map (fun p => p.1 * p.2)
+  (raggedRows prod rowLens).map List.sum
+
+/-- `alignment_to_interval(alignment)`: column-wise Bed6 construction from the BamEntry columns -/
+def alignmentToInterval (codes : List Nat) (ds : List DRec) : List Interval :=
+  let flatOps := (ds.map (·.cigOp)).flatten
+  let flatLens := (ds.map (·.cigLen)).flatten
+  let rowLens := ds.map (·.cigOp.length)
+  let len := countReferenceLength codes flatOps flatLens rowLens
+  let strand := ds.map (fun d => (d.flag &&& 16) != 0)        -- np.where(flag & 16, "-", "+")
+  (ds.zip (len.zip strand)).map (fun (d, l, m) =>
+    { chrom := d.chrom, start := d.pos, stop := d.pos + (l : Nat), name := d.name, score := d.mapq, minus := m })
 
 /-! probe used to tie the fixed offsets to the running code (see Gen/C16.lean): one record with
 `l_read_name = 1`, everything else zero, `pad` zero bytes of payload; byte `o` incremented -/
